@@ -149,6 +149,7 @@ def forest_check(prop, tier, seed):
     mcs.append(r_mc)
     rnd = random.Random(seed)
     traces = []
+    bf_paths = []
     nreplayed = 0
     # 2. spec -> code: every reachable small state x every call instance over every argument tuple
     if full_replay:
@@ -168,6 +169,7 @@ def forest_check(prop, tier, seed):
             args.append("--views")
         vlib.run_harness(exe, args, timeout=3600)
         traces.append(("replay", rp))
+        bf_paths.append(rp)
         nreplayed += len(chosen)
     # 2b. property-specific TLC generators, with the property's calls on every node
     if extra:
@@ -175,6 +177,11 @@ def forest_check(prop, tier, seed):
             gstates, r_g = dump_states("MCWs.tla", "SPECIFICATION Spec\nCONSTANT Dump = TRUE\nINVARIANTS ValidInput RiwLaws DumpState\nCHECK_DEADLOCK FALSE\n", prop + "_ws")
         else:
             gstates, r_g = dump_states("MCScope.tla", SCOPE_CFG.format(dump="TRUE"), prop + "_scope")
+            # and the three-level layouts (default and prefixed declarations of one namespace down a path)
+            g3, r_g3 = dump_states("MCScope3.tla", "SPECIFICATION Spec\nCONSTANT Dump = TRUE\nINVARIANTS ValidLayout ResolutionIsFunction DumpState\nCHECK_DEADLOCK FALSE\n", prop + "_scope3")
+            mcs.append(r_g3)
+            rnd.shuffle(g3)
+            gstates = gstates[: (800 if quick else 24000)] + g3[: (900 if quick else 4000)]
         mcs.append(r_g)
         rnd.shuffle(gstates)
         gchosen = gstates[: (1200 if quick else 30000)]
@@ -185,6 +192,7 @@ def forest_check(prop, tier, seed):
         rp2 = os.path.join(d, "greplay.ndjson")
         vlib.run_harness(exe, ["forest-replay", "--states", sp2, "--out", rp2, "--seed", str(seed), "--ops", ",".join(only_ops)], timeout=3600)
         traces.append(("generated", rp2))
+        bf_paths.append(rp2)
         nreplayed += len(gchosen)
     # 3. code -> spec: seeded random histories, larger than TLC can enumerate
     dp = os.path.join(d, "drive.ndjson")
@@ -198,6 +206,8 @@ def forest_check(prop, tier, seed):
     traces.append(("drive", dp))
     # 4. validate and collate
     violations, known, notes = [], {}, 0
+    for bp in bf_paths:
+        notes += vlib.buildfail(bp, prop, violations, known, prop)
     classes = set()
     samples = []
     events = {}
@@ -361,10 +371,16 @@ def observer_check(prop, tier, seed):
         return {"violations": [path], "known": [], "coverage": {"evaluations": len(jobs), "distinct_nontrivial": 2, "samples": [], "explanation": "hang"}, "assumptions": []}
     v = validate_observe(op, prop, quick)
     violations, known = [], {}
-    other = 0
+    other = vlib.buildfail(op, prop, violations, known, prop)
     for rj in v["rejects"]:
         if rj["prop"] == "TOOL":
             raise ToolError(f"generated state rejected as input: {rj['detail']}")
+        if rj["prop"] == "XAPI":
+            # value / type accessors outside the listed properties: noted, never a violation of this property
+            if other < 3:
+                log(f"  NOTE (outside the listed properties): accessor differs from the specification: {json.dumps(rj['detail'])[:200]}")
+            other += 1
+            continue
         if rj["prop"] != prop:
             other += 1
             continue
@@ -607,7 +623,8 @@ def parser_check(prop, tier, seed):
 SER_CFG = """SPECIFICATION Spec
 CONSTANTS
   MaxLen = {maxlen}
-  Alphabet = {{120, 60, 38, 62, 93, 34, 39, 9, 10, 13, 233, 128512}}
+  AttrMaxLen = {attrmax}
+  Alphabet = {alphabet}
   Dump = TRUE
 INVARIANTS InDomainAlways DumpState
 CHECK_DEADLOCK FALSE
@@ -652,20 +669,47 @@ def ser_check(prop, tier, seed):
     what = {"C01": ["roundtrip"], "C14": ["roundtrip"], "C16": ["tokens"]}[prop]
     counts = {"enumerated_documents": 0, "enumerated_forests": 0, "random": 0}
     # spec -> code: every <a b="V">T</a> with strings <= 2 over the class alphabet (TLC-enumerated, inside the domain)
-    docs, r_ser = dump_states("MCSer.tla", SER_CFG.format(maxlen=2), prop + "_ser")
+    docs, r_ser = dump_states("MCSer.tla", SER_CFG.format(maxlen=2, attrmax=2, alphabet="{120, 60, 38, 62, 93, 34, 39, 9, 10, 13, 233, 128512}"), prop + "_ser")
     mcs.append(r_ser)
     rnd.shuffle(docs)
+    if prop in ("C01", "C14"):
+        # every text of length <= 4 (5 thorough) over {x ] > < & CR}: the ]]> guard, the CDATA splitter, CR - under every
+        # combination of unescaped_gt and "the parent is a CDATA-section element"
+        bdocs, r_b = dump_states("MCSer.tla", SER_CFG.format(maxlen=4 if quick else 5, attrmax=0, alphabet="{120, 93, 62, 60, 38, 13}"), prop + "_brackets")
+        mcs.append(r_b)
+        rnd.shuffle(bdocs)
+        for k, st in enumerate(bdocs[: (3200 if quick else 20000)]):
+            if prop == "C01":
+                jobs.append({"st": st, "root": 1, "frag": False, "what": what, "cdata": [], "ugt": False, "decl": 0, "indent": False, "suppress": []})
+            else:
+                for cd in ([], [["", "a"]]):
+                    for ugt in (False, True):
+                        jobs.append({"st": st, "root": 1, "frag": False, "what": what, "cdata": cd, "ugt": ugt, "decl": 0, "indent": False, "suppress": []})
+                        counts["enumerated_documents"] += 1
+                continue
+            counts["enumerated_documents"] += 1
     for k, st in enumerate(docs[: (1500 if quick else 50000)]):
         j = {"st": st, "root": 1, "frag": False, "what": what}
         j.update(ser_params(rnd, prop, k))
         jobs.append(j)
         counts["enumerated_documents"] += 1
+    # every two-level declaration layout of MCScope (default declared / redeclared / undeclared, shadowing, several prefixes
+    # per namespace): only the usable ones are judged by the round trip
+    if prop in ("C01", "C14"):
+        layouts, r_sc = dump_states("MCScope.tla", SCOPE_CFG.format(dump="TRUE"), prop + "_scope")
+        mcs.append(r_sc)
+        rnd.shuffle(layouts)
+        for k, st in enumerate(layouts[: (2500 if quick else 24000)]):
+            j = {"st": st, "root": 1, "frag": False, "what": what}
+            j.update(ser_params(rnd, prop, k))
+            jobs.append(j)
+            counts["enumerated_documents"] += 1
     # C14: every xml:space / mixed-content layout of MCPretty x indentation with each suppress list
     if prop in ("C14", "C16"):
         pdocs, r_p = dump_states("MCPretty.tla", "SPECIFICATION Spec\nCONSTANT Dump = TRUE\nINVARIANTS InDomainAlways PrettyReflexive DumpState\nCHECK_DEADLOCK FALSE\n", prop + "_pretty")
         mcs.append(r_p)
         for st in pdocs:
-            for sup in ([], [["", "a"]], [["", "r"]]):
+            for sup in ([], [["", "a"]], [["", "r"]], [["", "a"], ["", "r"]], [["", "zz"], ["", "b"], ["", "a"]]):
                 jobs.append({"st": st, "root": 1, "frag": False, "what": what, "cdata": [], "ugt": False, "decl": 0, "indent": True, "suppress": sup})
                 counts["enumerated_documents"] += 1
             # and the element-rooted subtree r serialised on its own
@@ -713,6 +757,7 @@ def ser_check(prop, tier, seed):
     vlib.run_harness(exe, ["ser", "--jobs", jp, "--out", op], timeout=900 if quick else 7200)
     v = vlib.validate_trace_flat(op, module="TraceSer.tla", cfg="TraceSer.cfg", nshards=14, timeout=1800 if quick else 10000, tag=prop + "_ser")
     violations, known, other = [], {}, 0
+    other += vlib.buildfail(op, prop, violations, known, prop)
     for rj in v["rejects"]:
         if rj["prop"] == "TOOL":
             raise ToolError(f"generated state rejected as input: {rj['detail']}")
@@ -901,6 +946,7 @@ def html_check(prop, tier, seed):
     vlib.run_harness(exe, ["html", "--jobs", jp, "--out", op], timeout=1800 if quick else 7200)
     v = vlib.validate_trace_flat(op, module="TraceHtml.tla", cfg="TraceHtml.cfg", nshards=14, timeout=1800 if quick else 10000, tag="C19")
     violations, known = [], {}
+    vlib.buildfail(op, prop, violations, known, prop)
     for rj in v["rejects"]:
         if rj["prop"] == "TOOL":
             raise ToolError(f"generated state rejected as input: {rj['detail']}")
@@ -1053,7 +1099,7 @@ def build_check(prop, tier, seed):
     mcs = []
     jobs = []
     counts = {"tlc_programs": 0, "random_programs": 0}
-    for target in ([2, 3, 4] if quick else [2, 3, 4, 1]):
+    for target in ([2, 3, 4, 5] if quick else [2, 3, 4, 5, 1]):
         progs, r = dump_states("MCBuild.tla", BUILD_CFG.format(target=target, dump="TRUE", view="VIEW Progress\n"), f"C20_build{target}", workers=12)
         mcs.append(r)
         rnd.shuffle(progs)
